@@ -5,9 +5,15 @@ package side_chain_manager
 import "github.com/polynetwork/poly/native"
 
 // C17 replay accessors: thin exports of the unexported storage helpers (no logic).
-func VerifC17PutSideChainApply(n *native.NativeService, s *SideChain) error  { return putSideChainApply(n, s) }
-func VerifC17PutUpdateSideChain(n *native.NativeService, s *SideChain) error { return putUpdateSideChain(n, s) }
-func VerifC17PutQuitSideChain(n *native.NativeService, id uint64) error      { return putQuitSideChain(n, id) }
+func VerifC17PutSideChainApply(n *native.NativeService, s *SideChain) error {
+	return putSideChainApply(n, s)
+}
+func VerifC17PutUpdateSideChain(n *native.NativeService, s *SideChain) error {
+	return putUpdateSideChain(n, s)
+}
+func VerifC17PutQuitSideChain(n *native.NativeService, id uint64) error {
+	return putQuitSideChain(n, id)
+}
 func VerifC17PutContractBind(n *native.NativeService, redeemChain, contractChain uint64, redeemKey, contractAddr []byte, ver uint64) error {
 	return putContractBind(n, redeemChain, contractChain, redeemKey, contractAddr, ver)
 }
